@@ -482,6 +482,7 @@ class Engine:
         rec = {"property": self.cid, "kind": "run", "clause": clause, "finding": finding,
                "detail": detail, "verif_seed": self.seed, "tier": self.tier, "run_index": idx,
                "run_seed": rs, "scenario": sc, "streams": ctx.streams(), "minimised": False,
+               "hashseed": int(os.environ.get("PYTHONHASHSEED", "0") or 0),
                "occurrences_in_batch": count}
         match = _matching(ctx, clause, finding)
         if match is None:
@@ -508,7 +509,7 @@ class Engine:
         """Violation found by a non-run-shaped phase (distribution tests...)."""
         rec = dict(record)
         rec.update({"property": self.cid, "clause": clause, "detail": detail, "verif_seed": self.seed,
-                    "tier": self.tier})
+                    "tier": self.tier, "hashseed": int(os.environ.get("PYTHONHASHSEED", "0") or 0)})
         os.makedirs(REPLAY_DIR, exist_ok=True)
         path = os.path.join(REPLAY_DIR, f"{self.cid}-{self.seed}-{tag}-{clause.split('.')[-1]}.json")
         with open(path, "w") as f:
@@ -536,6 +537,7 @@ class Engine:
             "distinct_states": len(self.outcomes),
             "runs_per_hour": int(n / wall * 3600) if wall > 0 else 0,
             "seeds": {"verif_seed": self.seed, "run_seed": "H(verif_seed, property, run_index)",
+                      "python_hash_seed": int(os.environ.get("PYTHONHASHSEED", "0") or 0),
                       "run_indexes": [0, self.stats["n"]]},
             "logical_time": {"rng_decisions_answered": self.stats["decisions"],
                              "library_operations": self.stats["operations"]},
@@ -703,7 +705,8 @@ def minimise(check, rec, max_exec=400, max_s=30.0):
 
 def verify_fresh(cid, path, clause):
     env = dict(os.environ)
-    env["PYTHONHASHSEED"] = "0"
+    env.pop("PYTHONHASHSEED", None)         # the replay re-executes under the hash seed recorded in the file
+    env.pop("VERIF_HASHSEED", None)
     try:
         p = subprocess.run([sys.executable, "-m", "sim.check", cid, "--replay", path], cwd=VERIF_DIR,
                            env=env, capture_output=True, text=True, timeout=300)
